@@ -175,7 +175,7 @@ PROPS = {
         "ops": lambda g, md, n: g.gen_ops_copy(md, n, mode="saveload", pending=False),
         "extra_flags": ("-DH_SERIALIZE",),
         "corpus": ["savehist_none", "savehist_always", "savehist_shallow"],
-        "monitor": M.mon_C15,
+        "monitor": M.mon_C16,
         "relevant": M.relevant_by(M.proj(M.ALL, keep_res=True, keep_snap=True, keep_ev=True)),
         "rule": "same machines as C15 under back / back11: at quiescent points with empty queues the machine is saved to a text "
                 "archive and loaded into a freshly constructed object (the binary archive is loaded into a scratch object and "
